@@ -29,6 +29,33 @@ def tree_hash():
     return h.hexdigest()[:20]
 
 
+def sync_repo(dst, excludes=("/target", "/.git"), extra_args=()):
+    """Mirror REPO into dst by CONTENT (no mtimes copied: a changed file gets a fresh mtime, so
+    cargo rebuilds it) and, when the tree differs from the one last synced here, touch src/lib.rs
+    and build/ so that a build output left by a different tree with newer timestamps is never
+    taken as fresh."""
+    os.makedirs(dst, exist_ok=True)
+    args = ["rsync", "-rlpgoD", "--checksum", "--delete"]
+    for e in excludes:
+        args += ["--exclude", e]
+    args += ["--exclude", "/.verif_tree_hash"]
+    subprocess.run(args + list(extra_args) + [REPO + "/", dst + "/"], check=True)
+    key = tree_hash()
+    stamp = os.path.join(dst, ".verif_tree_hash")
+    old = None
+    if os.path.exists(stamp):
+        with open(stamp) as f:
+            old = f.read().strip()
+    if old != key:
+        for rel in ("src/lib.rs", "build/main.rs", "build.rs", "src/bin/scryer-prolog.rs"):
+            fp = os.path.join(dst, rel)
+            if os.path.exists(fp):
+                os.utime(fp)
+        with open(stamp, "w") as f:
+            f.write(key)
+    return key
+
+
 def get_mir():
     """Returns (path, seconds, cached). Raises RuntimeError when the dump cannot be produced."""
     os.makedirs(MIR_DIR, exist_ok=True)
@@ -44,8 +71,7 @@ def get_mir():
         t0 = time.time()
         src = os.path.join(MIR_DIR, "src")
         os.makedirs(src, exist_ok=True)
-        subprocess.run(["rsync", "-a", "--delete", "--exclude", "/target", "--exclude", "/.git",
-                        REPO + "/", src + "/"], check=True)
+        sync_repo(src)
         os.utime(os.path.join(src, "src", "lib.rs"))
         env = dict(os.environ)
         env["CARGO_NET_OFFLINE"] = "true"
